@@ -121,3 +121,16 @@ Fixpoint run_ex (sp : start_policy) (wp : wait_policy) (e : ex) (ops : list exop
   end.
 Definition check_xcase (sp : start_policy) (wp : wait_policy) (k : xcase) : bool :=
   list_eqb xobs_eqb (run_ex sp wp (init_ex (xc_maxw k)) (xc_ops k)) (xc_obs k).
+
+(* ---- a finer view of one wait(): workers may finish while it runs.  [late] are the environment steps that happen after the
+   drain of the result queue and before the executor looks at anything else; [sn] says where the liveness snapshot is taken. *)
+Definition consume_fine (sn : snap_pos) (late : list envstep) (e : ex) : ex :=
+  let e2 := fold_left env late (drain (rqueue e) e) in
+  match sn with
+  | SnapBefore => fold_left fail_dead (dead_ids e) e2
+  | SnapAfter => fold_left fail_dead (dead_ids e2) e2
+  | SnapUnknown => e2
+  end.
+Definition wait_fine (sp : start_policy) (sn : snap_pos) (late : list envstep) (e : ex) : ex :=
+  start_processes sp (consume_fine sn late e).
+Definition env_id (s : envstep) : nat := match s with EnvPut i _ | EnvExit i | EnvKill i => i end.
